@@ -10,7 +10,8 @@ from ..core import EventLog, Result, SimFault, SimBudget, HarnessError, choice, 
 from ..families import (sample_config, make_data, make_affinity, build_model, FAMILIES, GRADIENT_FAMILIES,
                         config_signature, needs_affinity, uses_precomputed)
 from ..seams import World, ModelHarness
-from .common import sample_constraints, sample_sched, decorate, expected_batches, exc_site, is_harness_frame, quiet
+from .common import (sample_constraints, sample_sched, decorate, expected_batches, exc_site, is_harness_frame, quiet,
+                     sample_prefix, sample_param_change, second_dataset, run_generic_op)
 
 PROPERTY = "C10"
 RULE = ("one run = one seeded scenario record (family x GEMINI/affinity source x solver x batch_size x n,d,K x plain/"
@@ -30,19 +31,28 @@ ASSUMPTIONS = ["rows of the training array are pairwise distinct so a batch row 
 def generate(rng):
     cfg = sample_config(rng, n_range=(1, 17), max_iter_range=(1, 4), p_big=0.12)
     fam = FAMILIES[cfg["family"]]
+    kmin = max(1, cfg["params"]["n_clusters"])
+    cfg["n2"] = cfg["n"] if rng.random() < 0.5 else rng.randint(kmin, max(kmin, 17))
     deco = None
-    if cfg["n"] >= 2 and rng.random() < 0.35:
-        deco = sample_constraints(rng, cfg["n"])
+    if min(cfg["n"], cfg["n2"]) >= 2 and rng.random() < 0.35:
+        deco = sample_constraints(rng, min(cfg["n"], cfg["n2"]))
     cfg["decorate"] = deco
-    ops = [{"op": "fit"}]
+    ops = sample_prefix(rng, cfg, p_any=0.3)
+    ops.append({"op": "fit", "data": 0})
     if fam.get("sparse") and cfg["d"] >= 2 and rng.random() < 0.5:
         cfg["params"]["alpha"] = choice(rng, [0.05, 0.5, 2.0])
-        ops.append({"op": "path", "args": {"alpha_multiplier": choice(rng, [2.0, 5.0, 10.0]),
-                                          "min_features": rng.randint(1, cfg["d"]),
-                                          "max_patience": rng.randint(1, 3),
-                                          "restore_best_weights": rng.random() < 0.5}})
-    if rng.random() < 0.2:
-        ops.append({"op": "fit"})
+        ops.append({"op": "path", "data": 0, "args": {"alpha_multiplier": choice(rng, [2.0, 5.0, 10.0]),
+                                                      "min_features": rng.randint(1, cfg["d"]),
+                                                      "max_patience": rng.randint(1, 3),
+                                                      "restore_best_weights": rng.random() < 0.5}})
+    if rng.random() < 0.25:
+        if rng.random() < 0.5:
+            ops.append({"op": weighted(rng, [("set_params", 2), ("mutate_data", 2)]), "data": 0})
+            if ops[-1]["op"] == "set_params":
+                ops[-1]["change"] = sample_param_change(rng, cfg)
+            else:
+                ops[-1]["how"] = choice(rng, ["scale", "shift", "reverse_rows"])
+        ops.append({"op": "fit", "data": rng.randrange(2)})
     faults = {"sched": sample_sched(rng, decorated=bool(deco)),
               "opt": weighted(rng, [("real", 7), ("identity", 1.5), ("scaled", 1.5)]),
               "opt_scale": choice(rng, [0.1, 3.0])}
@@ -52,16 +62,41 @@ def generate(rng):
 class Checker:
     def __init__(self, res, world, harness, cfg, X, A_user):
         self.res, self.world, self.h, self.cfg = res, world, harness, cfg
-        self.X, self.A_user = X, A_user
-        self.n = len(X)
-        self.bs = cfg["params"].get("batch_size")
         self.categorical = bool(FAMILIES[cfg["family"]].get("categorical"))
+        self.expected_full = None
+        self.check_expected = False
+        self.begin_op(X, A_user, "fit")
         self.epoch_ids = []
         self.epochs_in_op = 0
         self.batches_in_epoch = 0
         # validation-block bookkeeping
         self.val_probas = []
         self.val_evals = []
+
+    def begin_op(self, X, A_user, kind):
+        """The data and hyper-parameters of the call that starts now (they change along a history)."""
+        self.X, self.A_user = X, A_user
+        self.n = len(X)
+        self.bs = self.h.model.get_params().get("batch_size")
+        self.h.batch_size = self.bs
+        self.epochs_in_op = 0
+        self.check_expected = False
+        self.expected_full = None
+        if kind in ("fit", "crash_fit") or (kind in ("path", "crash_path", "nan_path") and not getattr(self.h.model, "dynamic", False)):
+            # what the full affinity of THIS call must be: the model's own GEMINI evaluated on the data being fitted now
+            # (a stale matrix kept from an earlier call, other data or other hyper-parameters is what this catches)
+            try:
+                g = self.h.orig_get_gemini()
+                self.expected_full = g.compute_affinity(self.kernelrim_input(X), A_user)
+                self.check_expected = True
+            except Exception:
+                self.check_expected = False
+
+    def kernelrim_input(self, X):
+        m = self.h.model
+        if self.cfg["family"] == "KernelRIM":
+            return X      # MI needs no affinity (compute_affinity returns None whatever the input)
+        return X
 
     # ---- batch-level
     def on_epoch(self, h, X_full, A_full):
@@ -77,7 +112,13 @@ class Checker:
                 res.violate("C10:affinity_block:unexpected_affinity", {})
         else:
             if A_full is None or np.shape(A_full) != np.shape(want) or not np.array_equal(A_full, want):
-                res.violate("C10:affinity_block:stale_or_foreign_full_matrix", {"epoch": h.epoch})
+                res.violate("C10:affinity_block:stale_or_foreign_full_matrix", {"epoch": h.epoch, "vs": "last computed"})
+        if self.check_expected:
+            exp = self.expected_full
+            if (exp is None) != (A_full is None) or (exp is not None and (np.shape(exp) != np.shape(A_full) or not np.array_equal(exp, A_full))):
+                res.violate("C10:affinity_block:stale_or_foreign_full_matrix", {"epoch": h.epoch, "vs": "affinity of the data being fitted"})
+            else:
+                res.probe("full_affinity_checked_against_current_data")
 
     def on_batch(self, h, X_full, A_full, Xb, Ab, ids):
         res = self.res
@@ -196,9 +237,12 @@ def execute(record):
     import random
     rng = random.Random(record.get("run_seed", 0) ^ 0x5EED)
     try:
+        import copy as _copy
+        cur_cfg = _copy.deepcopy(cfg)       # follows successful set_params calls
         X = make_data(cfg)
         A = make_affinity(cfg, X)
-        X0, A0 = X.copy(), None if A is None else A.copy()
+        X1, A1 = second_dataset(cfg)
+        pool = [(X, A), (X1, A1)]
         model = build_model(cfg, log)
         world = World(log, res, rng)
         world.opt_mode = faults.get("opt", "real")
@@ -217,7 +261,7 @@ def execute(record):
                 deco = None
         h.pairs = pairs
         h.wrap_batchify()
-        chk = Checker(res, world, h, cfg, X, A)
+        chk = Checker(res, world, h, cur_cfg, X, A)
         h.epoch_hooks.append(chk.on_epoch)
         h.batch_hooks.append(chk.on_batch)
         h.epoch_end_hooks.append(chk.on_epoch_end)
@@ -246,38 +290,28 @@ def execute(record):
                                       out if not return_grad else out[0]))
         world.eval_hooks.append(on_eval)
         world.val_hooks.append(chk.on_val_score)
-        world.val_budget = 3000
-        world.step_budget = 60000
+        world.val_budget = 6000
+        world.step_budget = 100000
 
-        n = cfg["n"]
-        bs = cfg["params"].get("batch_size")
         categorical = bool(FAMILIES[cfg["family"]].get("categorical"))
         with world, quiet():
             for op in record["ops"]:
-                world.begin_op()
-                chk.epochs_in_op = 0
-                log.emit("OP", op=op["op"], phase="begin")
-                try:
-                    if op["op"] == "fit":
-                        model.fit(X, A)
-                    else:
-                        model.path(X, A, **op.get("args", {}))
-                    log.emit("OP", op=op["op"], phase="end")
-                except (SimFault, SimBudget):
-                    raise
-                except Exception as e:  # a library exception where the property requires normal completion
-                    if is_harness_frame(e):
-                        raise
-                    log.emit("OP", op=op["op"], phase="raised", exc=type(e).__name__)
-                    if op["op"] != "fit":
-                        # the property promises completion for fit only; whether path() completes is C07's business
-                        res.probe("path_raised")
-                        break
-                    res.violate(f"C10:raised:{type(e).__name__}@{exc_site(e)}",
-                                {"op": op["op"], "exc": type(e).__name__, "msg": str(e)[:200]})
+                kind = op["op"]
+                Xo, Ao = pool[op.get("data", 0)]
+                before = (Xo.copy(), None if Ao is None else Ao.copy())
+                chk.val_probas, chk.val_evals = [], []
+                chk.begin_op(Xo, Ao, kind)
+                outcome = run_generic_op(op, model, world, pool, cur_cfg, res, log)
+                if outcome.startswith("raised") and kind == "fit":
+                    # a library exception where the property requires normal completion
+                    res.violate(f"C10:raised:{outcome.split(':')[1]}@fit", {"op": kind, "history": [o["op"] for o in record["ops"]]})
                     break
-                if op["op"] == "fit":
-                    mi = cfg["params"]["max_iter"]
+                if outcome.startswith("raised") and kind == "path":
+                    res.probe("path_raised")     # whether path() completes is C07's business
+                if kind == "fit" and outcome == "ok":
+                    mi = model.get_params()["max_iter"]
+                    n = len(Xo)
+                    bs = model.get_params().get("batch_size")
                     if chk.epochs_in_op != mi:
                         res.violate("C10:epochs", {"got": chk.epochs_in_op, "want": mi})
                     want_steps = mi * (1 if categorical else expected_batches(n, bs))
@@ -285,9 +319,10 @@ def execute(record):
                         res.violate("C10:steps", {"got": world.n_steps, "want": want_steps})
                     if getattr(model, "n_iter_", None) != mi:
                         res.violate("C10:n_iter", {"got": getattr(model, "n_iter_", None), "want": mi})
-                else:
+                    res.probe("fits_checked")
+                if kind == "path" and outcome == "ok":
                     res.probe("paths_run")
-                if not np.array_equal(X, X0) or (A is not None and not np.array_equal(A, A0)):
+                if kind != "mutate_data" and (not np.array_equal(Xo, before[0]) or (Ao is not None and not np.array_equal(Ao, before[1]))):
                     raise HarnessError("training data mutated during the run (C12 territory); C10 oracle unreliable")
         if log.counts.get("BATCH", 0) == 0 and not res.violations:
             raise HarnessError("batch seam never fired")
